@@ -3,17 +3,17 @@ open RP
 
 def run (n : Nat) (ls : List Label) : Sys := ls.foldl (apply n) init
 
+/-- leader 0 commits two entries with follower 1, snapshots and compacts; follower 2, which has
+    nothing, is caught up by InstallSnapshot and then by AppendEntries from the snapshot boundary -/
 def tr : List Label :=
-  [ .timeout 0,
-    .voteReq 1 0 1 0 0 2,
-    .voteResp 0 1 1,
-    .append 0 7,
-    .sendAE 0 0 2 0,
-    .recvAE 1 0 1 0 0 [⟨1, 0⟩, ⟨1, 7⟩] 0 2,
+  [ .timeout 0, .voteReq 1 0 1 0 0 2, .voteResp 0 1 1, .append 0 7,
+    .sendAE 0 0 2 0, .recvAE 1 0 1 0 0 [⟨1, 0⟩, ⟨1, 7⟩] 0 2,
     .advanceCommit 0 2 [0, 1],
-    .sendAE 0 2 0 2,
-    .recvAE 1 0 1 2 1 [] 2 2 ]
+    .takeSnap 0 2, .compact 0 2,
+    .append 0 8,
+    .sendIS 0, .recvIS 2 0 1 2 1,
+    .sendAE 0 2 1 2, .recvAE 2 0 1 2 1 [⟨1, 8⟩] 2 2 ]
 
 #eval let s := run 3 tr
-      ((s.nodes 0).role, (s.nodes 0).term, (s.nodes 0).log, (s.nodes 0).commit,
-       (s.nodes 1).role, (s.nodes 1).term, (s.nodes 1).log, (s.nodes 1).commit, s.ghost.acks, s.ghost.elected)
+      ((s.nodes 0).log, (s.nodes 0).commit, (s.nodes 0).snapIdx, (s.nodes 0).base,
+       (s.nodes 2).log, (s.nodes 2).commit, (s.nodes 2).snapIdx, (s.nodes 2).base, (s.nodes 2).term)
